@@ -620,6 +620,51 @@ theorem range_ptr_live (st : St) (l : LExp) (loc t : Loc) (vs : Vals)
   · simp [rangeSrcY, hr, hv, ha, bind, Except.bind]
   · intro st' k; rfl
 
+/-- F08-7 `x := P{1,2}; p := &x; a := [2]int{0,0}; x = <-c (holding {5,6}); a[1] = <-c (holding 9)` — formerly the receive
+    node took the place of the destination: the variable's cell was swapped (*p stale) and an element received nothing;
+    repaired by commit 177a151 of the repository (the received value is assigned like any other) -/
+def progRecv : List Op :=
+  [.s (.define 1 (.lit (.str (.cons (.int 1) (.cons (.int 2) .nil))))),
+   .s (.define 2 (.addr (.var 1))),
+   .s (.define 3 (.lit (.arr (.cons (.int 0) (.cons (.int 0) .nil))))),
+   .s (.recv false (.var 1) (.lit (.str (.cons (.int 5) (.cons (.int 6) .nil))))),
+   .s (.recv false (.index (.var 3) (.lit 1)) (.lit (.int 9))),
+   .s (.recv false (.field (.var 2) 0) (.load (.index (.var 3) (.lit 1)))),
+   .s (.show [1, 2, 3])]
+
+theorem recv_assign_fixed :
+    shapesOf progRecv = ["recv-assign-var", "recv-assign-elem", "recv-assign-elem"] ∧
+    obsOf (runY share G0 St.empty progRecv) = ⟨["v1={9,6} v2=&{9,6} v3=[0,9]"], "ok"⟩ ∧
+    obsOf (Spec.runGo G0 St.empty progRecv) = ⟨["v1={9,6} v2=&{9,6} v3=[0,9]"], "ok"⟩ := by decide
+
+/-- … and with the `src.action == aRecv` arm of cfg.go (the source before 177a151) the model reproduces both halves of F08-7 -/
+theorem fact_recvAssignsValue_matters :
+    obsOf (runY { share with recvAssignsValue := false } G0 St.empty progRecv) = ⟨["v1={5,6} v2=&{1,2} v3=[0,0]"], "ok"⟩ := by decide
+
+/-- F04-14 `for _, k := range []int{1,2,1} { v, ok := e.(int) /* holds 7 when k = 1, fails when k = 2 */; ps = append(ps, &v) }` —
+    formerly one v for all iterations and a stale v after a failure; repaired by commit 2fe0a18 of the repository -/
+def progAssertLoop : List Op :=
+  [.s (.define 1 (.mkslice .nil)),
+   .s (.define 2 (.lit (.arr (.cons (.int 7) (.cons (.int 8) .nil))))),
+   .range (.var 2) 3 4 [.assert2 true 5 6 (.load (.var 4)) true (.int 0) false false,
+                        .append false (.var 1) (.load (.var 1)) [.addr (.var 5)] .nil 8 false,
+                        .assert2 false 5 6 (.load (.var 4)) false (.int 0) false false,
+                        .show [5, 6]],
+   .s (.show [1])]
+
+theorem assert2_define_in_loop_fixed :
+    obsOf (runY share G0 St.empty progAssertLoop) = ⟨["v5=0 v6=0", "v5=0 v6=0", "v1=s2/2[&0,&0]"], "ok"⟩ ∧
+    obsOf (Spec.runGo G0 St.empty progAssertLoop) = ⟨["v5=0 v6=0", "v5=0 v6=0", "v1=s2/2[&0,&0]"], "ok"⟩ := by decide
+
+/-- … without `setResult`'s zeroing the failed assertion leaves 7 / 8 in v; without genValueDefine both pointers are one variable -/
+theorem fact_assert_matters :
+    obsOf (runY { share with assertZeroOnFail := false } G0 St.empty progAssertLoop)
+      = ⟨["v5=7 v6=0", "v5=8 v6=0", "v1=s2/2[&7,&8]"], "ok"⟩ ∧
+    obsOf (runY { share with assertDefineFresh := false } G0 St.empty progAssertLoop)
+      = ⟨["v5=0 v6=0", "v5=0 v6=0", "v1=s2/2[&0,&0]"], "ok"⟩ ∧
+    obsOf (runY { share with assertDefineFresh := false, assertZeroOnFail := false } G0 St.empty progAssertLoop)
+      = ⟨["v5=7 v6=0", "v5=8 v6=0", "v1=s2/2[&8,&8]"], "ok"⟩ := by decide
+
 /-! ### the facts matter: with one choice flipped, a program tells the model from the specification
     (what the correspondence run would see after such a change of the source) -/
 
